@@ -3,7 +3,12 @@ import UsualProofs.C16.Sip
 import UsualProofs.C16.L3
 import UsualProofs.C16.XXH
 import UsualProofs.C16.Spk
+import UsualProofs.C16.SpkPub
+import UsualProofs.C16.SipPaper
+import UsualProofs.C16.L3Pub
+import UsualProofs.C16.XXHPub
 import Usual.C16.MemHash
+import Usual.Gen.C16Consts
 /-! # C16 — non-cryptographic hashes are pure, bounded and equal the published algorithms
 
 Property theorems about the models in `lean/Usual/C16/` (which mirror
@@ -14,6 +19,12 @@ by `harness/C16/h.c` on every run).
 list (and seed/key) only — there is no address, alignment or surrounding memory it could depend
 on.  That the C code behaves like these functions, and reads nothing outside `[data, data+len)`,
 is what the guard-page / ASan differential run observes; it is not a theorem.
+
+The specifications the models are proved equal to (`SipHashPaper`, `Lookup3Pub`, `XXH32Spec`,
+`SpookyV2`) import nothing from the models: they are written from the publications (prose, index
+form, rotation tables, constants in the publications' notation).  The constants found in the C
+sources are regenerated into `Usual.Gen.C16Consts` on every run and proved equal to the
+specifications' tables (`*_constants_ok`).
 
 `example`s that evaluate a hash on a published test vector are **tests** (kernel-evaluated),
 not proofs of equality with the publication; they are labelled `-- test vector`. -/
@@ -85,21 +96,32 @@ theorem sip_tail_eq_padding (len : Nat) (s : List UInt8) (h : s.length = len % 8
 example : SipHash.tail 259 [0xAA, 0xBB, 0xCC] = le64 [0xAA, 0xBB, 0xCC, 0, 0, 0, 0, 3] :=
   sip_tail_eq_padding 259 [0xAA, 0xBB, 0xCC] (by decide)
 
-/-- `siphash24` = SipHash-2-4 as the paper defines it (pad, split into little-endian words,
-2 compression rounds per word, 4 finalisation rounds), for every message and key.  The round
-function itself is a transcription (pinned by the paper's vectors below and by the C reference). -/
+/-- `siphash24` = SipHash-2-4 of the paper (`SipHashPaper`: SipRound in the paper's statement
+order with its rotation table, constants computed from "somepseudorandomlygeneratedbytes",
+`c = 2` compression and `d = 4` finalisation rounds, padding to little-endian words), for every
+message and key. -/
 theorem siphash24_eq_paper (data : List UInt8) (k0 k1 : UInt64) :
-    SipHash.siphash24 data k0 k1 = SipHash.siphash24Spec data k0 k1 :=
-  UsualProofs.C16.Sip.siphash24_eq_spec data k0 k1
+    SipHash.siphash24 data k0 k1 = SipHashPaper.siphash24 k0 k1 data := by
+  rw [UsualProofs.C16.Sip.siphash24_eq_spec, UsualProofs.C16.SipPaper.spec_eq_paper]
 -- test vector: SipHash paper, Appendix A (key 00..0f, message 00..0e), by model and by spec
 example : SipHash.siphash24 [0, 1, 2, 3, 4, 5, 6, 7, 8, 9, 10, 11, 12, 13, 14] 0x0706050403020100 0x0f0e0d0c0b0a0908
     = 0xa129ca6149be45e5 := by decide +kernel
-example : SipHash.siphash24Spec [0, 1, 2, 3, 4, 5, 6, 7, 8, 9, 10, 11, 12, 13, 14] 0x0706050403020100 0x0f0e0d0c0b0a0908
+example : SipHashPaper.siphash24 0x0706050403020100 0x0f0e0d0c0b0a0908 [0, 1, 2, 3, 4, 5, 6, 7, 8, 9, 10, 11, 12, 13, 14]
     = 0xa129ca6149be45e5 := by decide +kernel
-example : SipHash.siphash24 [] 0x0706050403020100 0x0f0e0d0c0b0a0908 = 0x726fdb47dd0e0e31 := by
+example : SipHashPaper.siphash24 0x0706050403020100 0x0f0e0d0c0b0a0908 [] = 0x726fdb47dd0e0e31 := by
   decide +kernel
 example : SipHash.siphash24 [0, 1, 2, 3, 4, 5, 6, 7] 0x0706050403020100 0x0f0e0d0c0b0a0908
     = 0x93f5f5799a932462 := by decide +kernel
+
+/-- the constants of siphash.c as they stand today (regenerated on every run): rotation amounts per
+state word, the four initialisation constants, the round counts and the finalisation constant
+are the paper's -/
+theorem siphash_constants_ok :
+    Usual.Gen.C16Consts.sipRotByVar = SipHashPaper.rotByVar ∧
+    Usual.Gen.C16Consts.sipInit = (List.range 4).map (fun n => (SipHashPaper.be64 SipHashPaper.initString n).toNat) ∧
+    Usual.Gen.C16Consts.sipC = 2 ∧ Usual.Gen.C16Consts.sipD = 4 ∧
+    Usual.Gen.C16Consts.sipFinalXor = 0xff := by decide +kernel
+example : Usual.Gen.C16Consts.sipRotByVar.length = 4 := by decide
 
 /-! ## lookup3 -/
 
@@ -113,30 +135,48 @@ example : Lookup3.specTail 5 (1, 2, 3) [10, 20, 30, 40, 50] = Lookup3.addWords (
   lookup3_tail_eq_padding (1, 2, 3) [10, 20, 30, 40, 50] (by decide) (by decide)
 
 /-- `hash_lookup3` = Jenkins' `hashlittle2` with both seeds zero (`*pb` high, `*pc` low), for
-every input.  `mix`/`final` are transcriptions (pinned by the vectors and the C reference). -/
+every input, against `Lookup3Pub`: `mix`/`final` by their published rotation schedules in index
+form, blocks and tail byte by byte. -/
 theorem hash_lookup3_eq_hashlittle2 (data : List UInt8) :
-    Lookup3.hashLookup3 data = Lookup3.hashlittle2Spec data :=
-  UsualProofs.C16.L3.hashLookup3_eq_spec data
+    Lookup3.hashLookup3 data = Lookup3Pub.hashlittle2 data := by
+  rw [UsualProofs.C16.L3.hashLookup3_eq_spec, UsualProofs.C16.L3Pub.spec_eq_pub]
 -- test vector: lookup3.c driver5: hashlittle("Four score and seven years ago", 30, 0) = 0x17770551,
 -- hashlittle2 with zero seeds gives c = 17770551, b = ce7226e6; empty input gives deadbeef deadbeef
 example : Lookup3.hashLookup3 [70, 111, 117, 114, 32, 115, 99, 111, 114, 101, 32, 97, 110, 100, 32, 115, 101, 118, 101, 110, 32, 121, 101, 97, 114, 115, 32, 97, 103, 111] = 0xce7226e617770551 := by decide +kernel
-example : Lookup3.hashlittle2Spec [70, 111, 117, 114, 32, 115, 99, 111, 114, 101, 32, 97, 110, 100, 32, 115, 101, 118, 101, 110, 32, 121, 101, 97, 114, 115, 32, 97, 103, 111] = 0xce7226e617770551 := by decide +kernel
-example : Lookup3.hashLookup3 [] = 0xdeadbeefdeadbeef := by decide +kernel
+example : Lookup3Pub.hashlittle2 [70, 111, 117, 114, 32, 115, 99, 111, 114, 101, 32, 97, 110, 100, 32, 115, 101, 118, 101, 110, 32, 121, 101, 97, 114, 115, 32, 97, 103, 111] = 0xce7226e617770551 := by decide +kernel
+example : Lookup3Pub.hashlittle2 [] = 0xdeadbeefdeadbeef := by decide +kernel
+
+/-- the rotation schedules and the start constant in lookup3.c today are the published ones -/
+theorem lookup3_constants_ok :
+    Usual.Gen.C16Consts.l3MixRot = Lookup3Pub.mixRot ∧
+    Usual.Gen.C16Consts.l3FinalRot = Lookup3Pub.finalRot ∧
+    Usual.Gen.C16Consts.l3Init = Lookup3Pub.initConst.toNat := by decide +kernel
+example : Usual.Gen.C16Consts.l3MixRot.length = 6 ∧ Usual.Gen.C16Consts.l3FinalRot.length = 7 := by decide
 
 /-! ## XXH32 -/
 
-/-- `xxhash()` = XXH32 as the specification states it: four independent lanes over the words
-`4i+j` of the whole 16-byte stripes, convergence, length, remaining words, remaining bytes,
-avalanche — for every input and seed. -/
+/-- `xxhash()` = XXH32 of the specification (`XXH32Spec`: hexadecimal primes, rotation and shift
+tables, four independent lanes over the words `4i+j` of the whole 16-byte stripes, merge, length,
+remaining words, remaining bytes, avalanche) — for every input and seed. -/
 theorem xxh32_eq_spec (data : List UInt8) (seed : UInt32) :
-    XXHash.xxh32 data seed = XXHash.xxh32Spec data seed :=
-  UsualProofs.C16.XXH.xxh32_eq_spec data seed
+    XXHash.xxh32 data seed = XXH32Spec.xxh32 data seed := by
+  rw [UsualProofs.C16.XXH.xxh32_eq_spec, UsualProofs.C16.XXHPub.spec_eq_pub]
 -- test vectors: XXH32 of "", "a", "abc", and of the 39-byte sanity string, seed 0
 example : XXHash.xxh32 [] 0 = 0x02CC5D05 := by decide +kernel
 example : XXHash.xxh32 [97] 0 = 0x550D7456 := by decide +kernel
 example : XXHash.xxh32 [97, 98, 99] 0 = 0x32D153FF := by decide +kernel
 example : XXHash.xxh32 [78, 111, 98, 111, 100, 121, 32, 105, 110, 115, 112, 101, 99, 116, 115, 32, 116, 104, 101, 32, 115, 112, 97, 109, 109, 105, 115, 104, 32, 114, 101, 112, 101, 116, 105, 116, 105, 111, 110] 0 = 0xE2293B2F := by decide +kernel
-example : XXHash.xxh32Spec [78, 111, 98, 111, 100, 121, 32, 105, 110, 115, 112, 101, 99, 116, 115, 32, 116, 104, 101, 32, 115, 112, 97, 109, 109, 105, 115, 104, 32, 114, 101, 112, 101, 116, 105, 116, 105, 111, 110] 0 = 0xE2293B2F := by decide +kernel
+example : XXH32Spec.xxh32 [78, 111, 98, 111, 100, 121, 32, 105, 110, 115, 112, 101, 99, 116, 115, 32, 116, 104, 101, 32, 115, 112, 97, 109, 109, 105, 115, 104, 32, 114, 101, 112, 101, 116, 105, 116, 105, 111, 110] 0 = 0xE2293B2F := by decide +kernel
+example : XXH32Spec.xxh32 [] 0 = 0x02CC5D05 := by decide +kernel
+
+/-- primes, rotation amounts (in source order: four stripe rounds, merge, word step, byte step) and
+avalanche shifts in xxhash.c today are those of the specification -/
+theorem xxh32_constants_ok :
+    Usual.Gen.C16Consts.xxhPrimes = XXH32Spec.primes.map (·.toNat) ∧
+    Usual.Gen.C16Consts.xxhRot = List.replicate 4 XXH32Spec.roundRot ++ XXH32Spec.mergeRot
+        ++ [XXH32Spec.wordRot, XXH32Spec.byteRot] ∧
+    Usual.Gen.C16Consts.xxhShift = XXH32Spec.avalancheShift := by decide +kernel
+example : Usual.Gen.C16Consts.xxhPrimes.length = 5 := by decide
 
 /-! ## SpookyHash V2 -/
 
@@ -164,53 +204,49 @@ theorem spooky_last_block_eq_padding (rem : List UInt8) (h : rem.length ≤ 95) 
 example : Spooky.lastBlock [7, 8, 9] = [7, 8, 9] ++ zeros 92 ++ [3] :=
   spooky_last_block_eq_padding [7, 8, 9] (by decide)
 
-/-- What is proved of "spookyhash = SpookyHash V2": below 192 bytes the function equals the
-padded formulation of `Short` (`Spooky.shortSpec`), from 192 bytes on it is the block loop over
-`length / 96` blocks followed by `End` on the padded last block.
+/-- **`spookyhash` = SpookyHash V2** (`SpookyV2.hash128`: the published Short / Mix / EndPartial /
+End in array-index form with the published rotation tables, `sc_const`, 96-byte blocks, the
+192-byte threshold, zero-padded tails), for every message and both seed words. -/
+theorem spooky_eq_published (data : List UInt8) (h1 h2 : UInt64) :
+    Spooky.spookyhash data h1 h2 = SpookyV2.hash128 data h1 h2 :=
+  UsualProofs.C16.SpkPub.spookyhash_eq_published data h1 h2
 
-Not proved (the full statement would be
-`theorem spooky_eq_published : Spooky.spookyhash data h1 h2 = SpookyV2.hash128 data h1 h2`
-against an independently formulated `SpookyV2.hash128`): that the transcribed mixing functions
-`ShortMix/ShortEnd/Mix/EndPartial` and the constants are the published ones — this rests on the
-transcription, on the 64 published `TestResults` vectors (short path) and on the independent C
-reference with index-formula mixing functions in harness/C16/refs.h (both paths). -/
-theorem spooky_eq_published_partial (data : List UInt8) (h1 h2 : UInt64) :
-    Spooky.spookyhash data h1 h2 =
-      if data.length < 192 then Spooky.shortSpec data h1 h2
-      else
-        let s := Spooky.longLoop (data.length / 96)
-          ⟨h1, h2, Spooky.sc, h1, h2, Spooky.sc, h1, h2, Spooky.sc, h1, h2, Spooky.sc⟩ data
-        let rem := data.drop (96 * (data.length / 96))
-        let s := Spooky.endMix s (rem ++ zeros (95 - rem.length) ++ [UInt8.ofNat (data.length % 96)])
-        (s.h0, s.h1) := by
-  unfold Spooky.spookyhash
-  by_cases h : data.length < 192
-  · simp only [h, if_true]
-    exact UsualProofs.C16.Spk.short_eq_spec data h1 h2
-  · simp only [h, if_false]
-    unfold Spooky.long
-    have hl : (data.drop (96 * (data.length / 96))).length = data.length % 96 := by
-      simp; omega
-    have hm : data.length % 96 ≤ 95 := by omega
-    simp only []
-    rw [UsualProofs.C16.Spk.lastBlock_eq_padding _ (by omega), hl]
+/-- the rotation tables of the four mixing macros, `sc_const`, `sc_numVars`, `sc_blockSize` and
+`sc_bufSize` in spooky.c today are the published ones -/
+theorem spooky_constants_ok :
+    Usual.Gen.C16Consts.spookyConst = SpookyV2.scConst.toNat ∧
+    Usual.Gen.C16Consts.spookyNumVars = SpookyV2.numVars ∧
+    Usual.Gen.C16Consts.spookyBlockSize = SpookyV2.blockSize ∧
+    Usual.Gen.C16Consts.spookyBufSize = SpookyV2.bufSize ∧
+    Usual.Gen.C16Consts.spookyMixRot = SpookyV2.mixRot ∧
+    Usual.Gen.C16Consts.spookyEndPartialRot = SpookyV2.endPartialRot ∧
+    Usual.Gen.C16Consts.spookyShortMixRot = SpookyV2.shortMixRot ∧
+    Usual.Gen.C16Consts.spookyShortEndRot = SpookyV2.shortEndRot := by decide +kernel
+example : Usual.Gen.C16Consts.spookyMixRot.length = 12 ∧ Usual.Gen.C16Consts.spookyShortEndRot.length = 11 := by
+  decide
 -- test vectors: SpookyV2 TestResults (buf[i] = i+128, Hash32(buf, len, 0) = low half of hash1
 -- with both seeds 0), lengths 0, 3, 31, 63
 example : (Spooky.spookyhash [] 0 0).1.toUInt32 = 0x6bf50919 := by decide +kernel
 example : (Spooky.spookyhash [128, 129, 130] 0 0).1.toUInt32 = 0x35bc5fbf := by decide +kernel
 example : (Spooky.spookyhash [128, 129, 130, 131, 132, 133, 134, 135, 136, 137, 138, 139, 140, 141, 142, 143, 144, 145, 146, 147, 148, 149, 150, 151, 152, 153, 154, 155, 156, 157, 158] 0 0).1.toUInt32 = 0x027bca7c := by decide +kernel
 example : (Spooky.spookyhash [128, 129, 130, 131, 132, 133, 134, 135, 136, 137, 138, 139, 140, 141, 142, 143, 144, 145, 146, 147, 148, 149, 150, 151, 152, 153, 154, 155, 156, 157, 158, 159, 160, 161, 162, 163, 164, 165, 166, 167, 168, 169, 170, 171, 172, 173, 174, 175, 176, 177, 178, 179, 180, 181, 182, 183, 184, 185, 186, 187, 188, 189, 190] 0 0).1.toUInt32 = 0x09c1afb4 := by decide +kernel
--- non-vacuity of the long branch: a 200-byte input takes it
-example : ¬ (List.replicate 200 (0 : UInt8)).length < 192 := by rw [List.length_replicate]; omega
+-- the same vectors by the specification, and one long-path evaluation (200 bytes ≥ 192) on both
+example : SpookyV2.hash32 [] 0 = 0x6bf50919 := by decide +kernel
+example : SpookyV2.hash32 [128, 129, 130, 131, 132, 133, 134, 135, 136, 137, 138, 139, 140, 141, 142, 143, 144, 145, 146, 147, 148, 149, 150, 151, 152, 153, 154, 155, 156, 157, 158, 159, 160, 161, 162, 163, 164, 165, 166, 167, 168, 169, 170, 171, 172, 173, 174, 175, 176, 177, 178, 179, 180, 181, 182, 183, 184, 185, 186, 187, 188, 189, 190] 0 = 0x09c1afb4 := by decide +kernel
+example : SpookyV2.hash128 (List.replicate 200 7) 1 2 = Spooky.spookyhash (List.replicate 200 7) 1 2 := by
+  decide +kernel
 
 /-! ## memhash_seed -/
 
 /-- on a host with 64-bit pointers or longs `memhash_seed(data, len, seed)` is the low 32 bits
-of SpookyHash's first word started from `(seed, 0)`; otherwise it is XXH32 with that seed -/
+of the published SpookyHash V2 started from `(seed, 0)`; otherwise it is the specified XXH32 -/
 theorem memhash_seed_def (data : List UInt8) (seed : UInt32) :
-    MemHash.memhashSeed true data seed = (Spooky.spookyhash data seed.toUInt64 0).1.toUInt32 ∧
-    MemHash.memhashSeed false data seed = XXHash.xxh32 data seed := by
-  constructor <;> rfl
+    MemHash.memhashSeed true data seed = (SpookyV2.hash128 data seed.toUInt64 0).1.toUInt32 ∧
+    MemHash.memhashSeed false data seed = XXH32Spec.xxh32 data seed := by
+  constructor
+  · rw [← spooky_eq_published]; rfl
+  · rw [← xxh32_eq_spec]; rfl
 example : MemHash.memhashSeed true [128, 129, 130] 0 = 0x35bc5fbf := by decide +kernel
+example : MemHash.memhashSeed false [97, 98, 99] 0 = 0x32D153FF := by decide +kernel
 
 end UsualProps.C16
